@@ -142,6 +142,8 @@ pub trait HInput<'a>: Input<'a, Token: HTok, Span: HSpan> + Sized + 'a {
     fn any<E: HErr<'a, Self>>() -> Res<P<'a, Self, E>>;
     fn skip<E: HErr<'a, Self>>(n: usize) -> Res<P<'a, Self, E>>;
     fn lazy<E: HErr<'a, Self>>(a: P<'a, Self, E>) -> Res<P<'a, Self, E>>;
+    /// `(Prog ops k)`: needs `ValueInput`; `CNextRef` uses `next_ref` on the `BorrowInput` kinds slice / bytes / array / mapped
+    fn prog<E: HErr<'a, Self>>(cv: &Self::Conv, ops: Vec<crate::ast::Cop>, k: usize) -> Res<P<'a, Self, E>>;
     /// `AnyRef` / `(SelectRef p f)`: `any_ref()` / `select_ref(..)` on the `BorrowInput` kinds slice, bytes, array, mapped;
     /// on the other kinds the by-value primitive (the model does not distinguish them)
     fn any_ref<E: HErr<'a, Self>>() -> Res<P<'a, Self, E>> {
@@ -207,6 +209,9 @@ macro_rules! value_impl {
         fn lazy<E: HErr<'a, Self>>(a: P<'a, Self, E>) -> Res<P<'a, Self, E>> {
             Ok(build::v_lazy(a))
         }
+        fn prog<E: HErr<'a, Self>>(cv: &Self::Conv, ops: Vec<crate::ast::Cop>, k: usize) -> Res<P<'a, Self, E>> {
+            Ok(build::v_prog(cv, ops, k))
+        }
         fn nested_delims<E: HErr<'a, Self>>(cv: &Self::Conv, s: u32, e: u32, others: &[(u32, u32)]) -> Res<P<'a, Self, E>> {
             build::v_nested_delims(cv, s, e, others)
         }
@@ -244,6 +249,9 @@ macro_rules! value_impl {
         }
         fn lazy<E: HErr<'a, Self>>(_a: P<'a, Self, E>) -> Res<P<'a, Self, E>> {
             build::unsupported("Lazy: input kind is not a ValueInput")
+        }
+        fn prog<E: HErr<'a, Self>>(_cv: &Self::Conv, _ops: Vec<crate::ast::Cop>, _k: usize) -> Res<P<'a, Self, E>> {
+            build::unsupported("Prog: input kind is not a ValueInput")
         }
         fn nested_delims<E: HErr<'a, Self>>(_cv: &Self::Conv, _s: u32, _e: u32, _o: &[(u32, u32)]) -> Res<P<'a, Self, E>> {
             build::unsupported("NestedDelims: input kind is not a ValueInput")
